@@ -33,7 +33,7 @@ def main():
         res.update(demo_without=rc0, demo_with=rc1, demo_tail=o1[-400:])
         for c in checks:
             t0 = time.time()
-            rcc, oc = sh(f"./check {c} --tier quick", cwd="/verif", env=dict(os.environ, THEFITTEST_REPO=wt))
+            rcc, oc = sh(f"./check {c} --tier quick", cwd=os.environ.get("VERIF_EVAL_DIR", "/verif"), env=dict(os.environ, THEFITTEST_REPO=wt))
             lines = [l for l in oc.splitlines() if l.startswith(("VIOLATION", "KNOWN-FINDING")) or "problem:" in l]
             res["checks"][c] = dict(exit=rcc, wall=round(time.time() - t0), lines=lines[:6])
         if run_tests:
